@@ -102,6 +102,7 @@ type boolOutcome struct {
 	kind string // "return", "block", "noreturn"
 	val  bool   // for return of a boolean
 	blk  *ssa.BasicBlock
+	ret  *ssa.Return
 }
 
 // run walks fr.fn from block b until a return or a block in stop is entered.
@@ -149,9 +150,9 @@ func (bi *boolInterp) run(fr *boolFrame, b *ssa.BasicBlock, stop map[*ssa.BasicB
 					if err != nil {
 						return boolOutcome{}, err
 					}
-					return boolOutcome{kind: "return", val: v}, nil
+					return boolOutcome{kind: "return", val: v, ret: x}, nil
 				}
-				return boolOutcome{kind: "return"}, nil
+				return boolOutcome{kind: "return", ret: x}, nil
 			case *ssa.Panic:
 				return boolOutcome{kind: "noreturn"}, nil
 			default:
